@@ -830,3 +830,431 @@ Proof.
   intro H. unfold render. rewrite (to_html_dom v false FirstChild H). cbn [fst].
   apply parse_ser_forest. apply (dom_of_ok v false FirstChild false H). discriminate.
 Qed.
+
+(** * Hydration walks the parsed tree *)
+
+(** the state hydration must produce for view [v] whose first node is child number [idx] of the
+    element at [par], computed from the shape of the expected DOM alone *)
+Fixpoint st_of (v : view) (pos : Position) (par : path) (idx : nat) {struct v} : stree :=
+  let seq := fix seq (l : list view) (pos : Position) (par : path) (idx : nat) {struct l} : list stree :=
+    match l with
+    | [] => []
+    | v :: l => st_of v pos par idx
+                :: seq l (snd (dom_of v pos)) par (idx + length (fst (dom_of v pos)))%nat
+    end in
+  match v with
+  | VText s => SText ((if pos_eqb pos NextChildAfterText then S idx else idx) :: par) s
+  | VUnit => SMarker (idx :: par)
+  | VNone => SRightS (SMarker (idx :: par))
+  | VElem n a ks =>
+      SElem (idx :: par) a (match ks with [] => None | _ => Some (seq ks FirstChild (idx :: par) O) end)
+  | VVoid n a => SElem (idx :: par) a None
+  | VTuple vs => SSeq (seq vs pos par idx)
+  | VSome v | VLeft v => SLeftS (st_of v pos par idx)
+  | VRight v => SRightS (st_of v pos par idx)
+  | VAny v => SAny (st_of v pos par idx)
+  | VVec vs => SVec (seq vs pos par idx) ((idx + length (fst (dom_seq vs pos)))%nat :: par)
+  | VKeyed vs => SKeyed par (seq vs pos par idx) ((idx + length (fst (dom_seq vs pos)))%nat :: par)
+  | VInert e => SInert (idx :: par)
+  end.
+
+Fixpoint st_seq (l : list view) (pos : Position) (par : path) (idx : nat) : list stree :=
+  match l with
+  | [] => []
+  | v :: l => st_of v pos par idx
+              :: st_seq l (snd (dom_of v pos)) par (idx + length (fst (dom_of v pos)))%nat
+  end.
+
+Lemma st_of_tuple vs pos par idx : st_of (VTuple vs) pos par idx = SSeq (st_seq vs pos par idx).
+Proof. reflexivity. Qed.
+
+Lemma st_of_elem n a ks pos par idx :
+  st_of (VElem n a ks) pos par idx =
+  SElem (idx :: par) a (match ks with [] => None | _ => Some (st_seq ks FirstChild (idx :: par) O) end).
+Proof. reflexivity. Qed.
+
+Lemma st_of_vec vs pos par idx :
+  st_of (VVec vs) pos par idx =
+  SVec (st_seq vs pos par idx) ((idx + length (fst (dom_seq vs pos)))%nat :: par).
+Proof. reflexivity. Qed.
+
+Lemma st_of_keyed vs pos par idx :
+  st_of (VKeyed vs) pos par idx =
+  SKeyed par (st_seq vs pos par idx) ((idx + length (fst (dom_seq vs pos)))%nat :: par).
+Proof. reflexivity. Qed.
+
+(** the DOM writes implied by a state: one reset per empty string *)
+Fixpoint resets (s : stree) : list op :=
+  let seq := fix seq (l : list stree) : list op :=
+    match l with [] => [] | s :: l => resets s ++ seq l end in
+  match s with
+  | SText n [] => [OSetText n []]
+  | SText _ _ | SMarker _ | SInert _ => []
+  | SElem _ _ (Some l) => seq l
+  | SElem _ _ None => []
+  | SSeq l | SVec l _ | SKeyed _ l _ => seq l
+  | SLeftS s | SRightS s | SAny s => resets s
+  end.
+Fixpoint resets_seq (l : list stree) : list op :=
+  match l with [] => [] | s :: l => resets s ++ resets_seq l end.
+
+(** the local list recursion of [hydrate] *)
+Lemma hydrate_tuple root vs h :
+  hydrate root (VTuple vs) h =
+  match hydrate_seq root vs h with Some (ss, h1) => Some (SSeq ss, h1) | None => None end.
+Proof.
+  cbn [hydrate].
+  assert (E : forall h, (fix seq (l : list view) (h : hstate) {struct l} : option (list stree * hstate) :=
+            match l with
+            | [] => Some ([], h)
+            | v :: l =>
+                match hydrate root v h with
+                | None => None
+                | Some (s, h1) =>
+                    match seq l h1 with
+                    | None => None
+                    | Some (ss, h2) => Some (s :: ss, h2)
+                    end
+                end
+            end) vs h = hydrate_seq root vs h).
+  { induction vs as [|v vs IH]; intro h0; [reflexivity|].
+    cbn [hydrate_seq]. destruct (hydrate root v h0) as [[s h1]|]; [|reflexivity]. now rewrite IH. }
+  now rewrite E.
+Qed.
+
+Lemma hydrate_elem root n a ks h :
+  hydrate root (VElem n a ks) h =
+  match goto_element root h with
+  | None => None
+  | Some el =>
+      match ks with
+      | [] => Some (SElem el a None, {| h_cur := el; h_pos := NextChild; h_ops := h_ops h |})
+      | _ =>
+          match hydrate_seq root ks {| h_cur := el; h_pos := FirstChild; h_ops := h_ops h |} with
+          | None => None
+          | Some (ss, h1) =>
+              Some (SElem el a (Some ss), {| h_cur := el; h_pos := NextChild; h_ops := h_ops h1 |})
+          end
+      end
+  end.
+Proof.
+  cbn [hydrate]. destruct (goto_element root h) as [el|]; [|reflexivity].
+  destruct ks as [|k ks]; [reflexivity|].
+  pose proof (hydrate_tuple root (k :: ks) {| h_cur := el; h_pos := FirstChild; h_ops := h_ops h |}) as H.
+  cbn [hydrate] in H.
+  match goal with |- match ?X with _ => _ end = _ => destruct X as [[ss h1]|] eqn:E end;
+  match type of H with _ = match ?Y with _ => _ end => destruct Y as [[ss' h1']|] end; congruence.
+Qed.
+
+Lemma hydrate_vec root vs h :
+  hydrate root (VVec vs) h =
+  match hydrate_seq root vs h with
+  | None => None
+  | Some (ss, h1) =>
+      match next_placeholder root h1 with
+      | Some (m, h2) => Some (SVec ss m, h2)
+      | None => None
+      end
+  end.
+Proof.
+  pose proof (hydrate_tuple root vs h) as H. cbn [hydrate] in H |- *.
+  match goal with |- match ?X with _ => _ end = _ => destruct X as [[ss h1]|] eqn:E end;
+  destruct (hydrate_seq root vs h) as [[ss' h1']|]; try congruence.
+  injection H as -> ->. reflexivity.
+Qed.
+
+Lemma hydrate_keyed root vs h :
+  hydrate root (VKeyed vs) h =
+  let parent := if pos_eqb (h_pos h) FirstChild then h_cur h else cur_parent (h_cur h) in
+  if negb (is_elem (node_at root parent))
+     || (negb (pos_eqb (h_pos h) FirstChild) && match h_cur h with [] => true | _ => false end)
+  then None
+  else match hydrate_seq root vs h with
+       | None => None
+       | Some (ss, h1) =>
+           match next_placeholder root h1 with
+           | Some (m, h2) => Some (SKeyed parent ss m, h2)
+           | None => None
+           end
+       end.
+Proof.
+  pose proof (hydrate_tuple root vs h) as H. cbn [hydrate] in H |- *. cbv zeta.
+  destruct (negb _ || _); [reflexivity|].
+  match goal with |- match ?X with _ => _ end = _ => destruct X as [[ss h1]|] eqn:E end;
+  destruct (hydrate_seq root vs h) as [[ss' h1']|]; try congruence.
+  injection H as -> ->. reflexivity.
+Qed.
+
+(** navigation *)
+Lemma get_app d p q :
+  get d (p ++ q) = match get d p with Some d' => get d' q | None => None end.
+Proof.
+  revert d. induction p as [|i p IH]; intro d; [reflexivity|].
+  cbn [app get]. destruct d as [s|s|n a ks]; try reflexivity.
+  destruct (nth_error ks i); [apply IH|reflexivity].
+Qed.
+
+Lemma node_at_cons root i par n a ks :
+  node_at root par = Some (DElem n a ks) -> node_at root (i :: par) = nth_error ks i.
+Proof.
+  unfold node_at. intro H. cbn [rev]. rewrite get_app, H. cbn [get].
+  destruct (nth_error ks i); reflexivity.
+Qed.
+
+Lemma nth_error_mid {A} (pre x post : list A) j :
+  (j < length x)%nat -> nth_error (pre ++ x ++ post) (length pre + j) = nth_error x j.
+Proof.
+  intro H. rewrite nth_error_app2 by lia. replace (length pre + j - length pre)%nat with j by lia.
+  now rewrite nth_error_app1.
+Qed.
+
+Definition cursor_ok (par : path) (pre : list dom) (pos : Position) (cur : path) : Prop :=
+  match pos with
+  | FirstChild => pre = [] /\ cur = par
+  | NextChild | NextChildAfterText => pre <> [] /\ cur = (length pre - 1)%nat :: par
+  | _ => False
+  end.
+
+(** the step every view starts with: to the first child if [FirstChild], else to the next sibling *)
+Lemma first_step root par n a pre x rest pos cur :
+  node_at root par = Some (DElem n a (pre ++ x :: rest)) ->
+  cursor_ok par pre pos cur ->
+  (if pos_eqb pos FirstChild then cur_child root cur else cur_sibling root cur) = length pre :: par /\
+  node_at root (length pre :: par) = Some x.
+Proof.
+  intros Hn Hc.
+  assert (Hx : node_at root (length pre :: par) = Some x).
+  { rewrite (node_at_cons _ _ _ _ _ _ Hn). rewrite nth_error_app2 by lia. now rewrite Nat.sub_diag. }
+  split; [|exact Hx].
+  destruct pos; cbn [cursor_ok pos_eqb] in *; try contradiction.
+  - destruct Hc as [-> ->]. unfold cur_child. cbn [length] in *. now rewrite Hx.
+  - destruct Hc as [Hne ->]. unfold cur_sibling.
+    assert (E : S (length pre - 1) = length pre) by (destruct pre; [congruence|cbn; lia]).
+    now rewrite E, Hx.
+  - destruct Hc as [Hne ->]. unfold cur_sibling.
+    assert (E : S (length pre - 1) = length pre) by (destruct pre; [congruence|cbn; lia]).
+    now rewrite E, Hx.
+Qed.
+
+Lemma cursor_ok_after par pre x pos :
+  (pos = NextChild \/ pos = NextChildAfterText) -> x <> [] ->
+  cursor_ok par (pre ++ x) pos ((length pre + length x - 1)%nat :: par).
+Proof.
+  intros Hp Hx. assert (pre ++ x <> []) by (destruct pre; destruct x; cbn; congruence).
+  destruct Hp as [-> | ->]; cbn [cursor_ok]; (split; [assumption|]); now rewrite app_length.
+Qed.
+
+Lemma cursor_ok_after' par pre x pos c :
+  (pos = NextChild \/ pos = NextChildAfterText) -> x <> [] ->
+  c = (length pre + length x - 1)%nat -> cursor_ok par (pre ++ x) pos (c :: par).
+Proof. intros Hp Hx ->. now apply cursor_ok_after. Qed.
+
+Definition hyd_spec (root : dom) (v : view) : Prop :=
+  forall par n0 a0 pre post in_p pos h,
+    wf in_p v = true ->
+    node_at root par = Some (DElem n0 a0 (pre ++ fst (dom_of v pos) ++ post)) ->
+    h_pos h = pos -> cursor_ok par pre pos (h_cur h) ->
+    exists h',
+      hydrate root v h = Some (st_of v pos par (length pre), h') /\
+      h_pos h' = snd (dom_of v pos) /\
+      cursor_ok par (pre ++ fst (dom_of v pos)) (h_pos h') (h_cur h') /\
+      h_ops h' = rev (resets (st_of v pos par (length pre))) ++ h_ops h.
+
+Lemma hyd_seq_spec root vs :
+  Forall (hyd_spec root) vs ->
+  forall par n0 a0 pre post in_p pos h,
+    wf_seq in_p vs = true ->
+    node_at root par = Some (DElem n0 a0 (pre ++ fst (dom_seq vs pos) ++ post)) ->
+    h_pos h = pos -> cursor_ok par pre pos (h_cur h) ->
+    exists h',
+      hydrate_seq root vs h = Some (st_seq vs pos par (length pre), h') /\
+      h_pos h' = snd (dom_seq vs pos) /\
+      cursor_ok par (pre ++ fst (dom_seq vs pos)) (h_pos h') (h_cur h') /\
+      h_ops h' = rev (resets_seq (st_seq vs pos par (length pre))) ++ h_ops h.
+Proof.
+  intro IH. induction IH as [|v vs Hv _ IHvs]; intros par n0 a0 pre post in_p pos h Hwf Hn Hpos Hc.
+  - exists h. cbn. rewrite app_nil_r. subst pos. auto.
+  - cbn [wf_seq] in Hwf. apply andb_true_iff in Hwf as [Hw1 Hw2].
+    cbn [dom_seq] in Hn |- *. cbn [hydrate_seq st_seq].
+    destruct (dom_of v pos) as [x1 p1] eqn:E1. destruct (dom_seq vs p1) as [x2 p2] eqn:E2.
+    cbn [fst snd] in *.
+    destruct (Hv par n0 a0 pre (x2 ++ post) in_p pos h Hw1) as (h1 & Hh1 & Hp1 & Hc1 & Ho1); auto.
+    { rewrite E1. cbn [fst]. now rewrite <- app_assoc in Hn. }
+    rewrite E1 in Hp1, Hc1. cbn [fst snd] in *.
+    assert (Hn2 : node_at root par = Some (DElem n0 a0 ((pre ++ x1) ++ fst (dom_seq vs p1) ++ post))).
+    { rewrite E2. cbn [fst]. now rewrite <- !app_assoc in *. }
+    assert (Hc1' : cursor_ok par (pre ++ x1) p1 (h_cur h1)) by (now rewrite <- Hp1).
+    destruct (IHvs par n0 a0 (pre ++ x1) post in_p p1 h1 Hw2 Hn2 Hp1 Hc1') as (h2 & Hh2 & Hp2 & Hc2 & Ho2).
+    rewrite E2 in Hp2, Hc2. cbn [fst snd] in *. rewrite app_length in Hh2, Ho2.
+    exists h2. rewrite Hh1, Hh2. repeat split; auto.
+    + now rewrite app_assoc.
+    + rewrite Ho2, Ho1. cbn [resets_seq]. now rewrite rev_app_distr, <- app_assoc.
+Qed.
+
+Lemma goto_element_ok root par n a pre x rest h :
+  node_at root par = Some (DElem n a (pre ++ x :: rest)) ->
+  cursor_ok par pre (h_pos h) (h_cur h) -> is_elem (Some x) = true ->
+  goto_element root h = Some (length pre :: par).
+Proof.
+  intros Hn Hc Hx. destruct (first_step _ _ _ _ _ _ _ _ _ Hn Hc) as [Hs Hat].
+  unfold goto_element.
+  assert (E : (if pos_eqb (h_pos h) FirstChild then cur_child root (h_cur h)
+               else if pos_eqb (h_pos h) Current then h_cur h else cur_sibling root (h_cur h))
+              = length pre :: par).
+  { destruct (h_pos h); cbn [pos_eqb cursor_ok] in *; try contradiction; exact Hs. }
+  now rewrite E, Hat, Hx.
+Qed.
+
+Lemma next_placeholder_ok root par n a pre x rest h :
+  node_at root par = Some (DElem n a (pre ++ x :: rest)) ->
+  cursor_ok par pre (h_pos h) (h_cur h) -> is_comment (Some x) = true ->
+  next_placeholder root h =
+  Some (length pre :: par, {| h_cur := length pre :: par; h_pos := NextChild; h_ops := h_ops h |}).
+Proof.
+  intros Hn Hc Hx. destruct (first_step _ _ _ _ _ _ _ _ _ Hn Hc) as [Hs Hat].
+  unfold next_placeholder. now rewrite Hs, Hat, Hx.
+Qed.
+
+Lemma resets_elem n a l : resets (SElem n a (Some l)) = resets_seq l.
+Proof. reflexivity. Qed.
+Lemma resets_seq_eq l : resets (SSeq l) = resets_seq l.
+Proof. reflexivity. Qed.
+Lemma resets_vec l m : resets (SVec l m) = resets_seq l.
+Proof. reflexivity. Qed.
+Lemma resets_keyed p l m : resets (SKeyed p l m) = resets_seq l.
+Proof. reflexivity. Qed.
+
+Lemma hyd_all root v : hyd_spec root v.
+Proof.
+  induction v as [s| |n a ks IH|n a|vs IH|v IH| |v IH|v IH|vs IH|v IH|vs IH|e] using view_ind';
+    intros par n0 a0 pre post in_p pos h Hwf Hn Hpos Hc; subst pos.
+  - (* text *)
+    cbn [dom_of fst snd] in *. cbn [hydrate st_of].
+    destruct (pos_eqb (h_pos h) NextChildAfterText) eqn:Ep.
+    + cbn [app] in Hn.
+      destruct (first_step _ _ _ _ _ _ _ _ _ Hn Hc) as [Hs _]. rewrite Hs.
+      assert (Ht : node_at root (S (length pre) :: par) = Some (text_node s)).
+      { rewrite (node_at_cons _ _ _ _ _ _ Hn).
+        rewrite nth_error_app2 by lia. replace (S (length pre) - length pre)%nat with 1%nat by lia.
+        reflexivity. }
+      assert (Hsib : cur_sibling root (length pre :: par) = S (length pre) :: par)
+        by (unfold cur_sibling; now rewrite Ht).
+      rewrite Hsib, Ht. cbn [is_text text_node].
+      eexists. split; [reflexivity|]. cbn [h_pos h_cur h_ops]. split; [reflexivity|]. split.
+      * apply cursor_ok_after'; [now right|discriminate|cbn [length app]; lia].
+      * destruct s; reflexivity.
+    + cbn [app] in Hn.
+      destruct (first_step _ _ _ _ _ _ _ _ _ Hn Hc) as [Hs Ht]. rewrite Hs, Ht. cbn [is_text text_node].
+      eexists. split; [reflexivity|]. cbn [h_pos h_cur h_ops]. split; [reflexivity|]. split.
+      * apply cursor_ok_after'; [now right|discriminate|cbn [length app]; lia].
+      * destruct s; reflexivity.
+  - (* unit *)
+    cbn [dom_of fst snd app] in *. cbn [hydrate st_of].
+    rewrite (next_placeholder_ok _ _ _ _ _ _ _ _ Hn Hc eq_refl).
+    eexists. split; [reflexivity|]. cbn [h_pos h_cur h_ops]. split; [reflexivity|]. split; [|reflexivity].
+    apply cursor_ok_after'; [now left|discriminate|cbn [length app]; lia].
+  - (* element *)
+    rewrite dom_of_elem in *. cbn [fst snd app] in *. rewrite hydrate_elem, st_of_elem.
+    rewrite (goto_element_ok _ _ _ _ _ _ _ _ Hn Hc eq_refl).
+    assert (Hafter : cursor_ok par (pre ++ [DElem n a (fst (dom_seq ks FirstChild))]) NextChild (length pre :: par)).
+    { apply cursor_ok_after'; [now left|discriminate|cbn [length app]; lia]. }
+    destruct ks as [|k ks].
+    + eexists. split; [reflexivity|]. cbn [h_pos h_cur h_ops]. auto.
+    + rewrite wf_elem in Hwf. apply andb_true_iff in Hwf as [_ Hks].
+      destruct (first_step _ _ _ _ _ _ _ _ _ Hn Hc) as [_ Hel].
+      set (el := (length pre :: par)) in *.
+      assert (Hel' : node_at root el =
+                     Some (DElem n a ([] ++ fst (dom_seq (k :: ks) FirstChild) ++ []))).
+      { now rewrite app_nil_r. }
+      destruct (hyd_seq_spec root (k :: ks) IH el n a [] [] _ FirstChild
+                  {| h_cur := el; h_pos := FirstChild; h_ops := h_ops h |} Hks Hel' eq_refl)
+        as (h1 & Hh1 & _ & _ & Ho1).
+      { split; reflexivity. }
+      cbn [length] in Hh1, Ho1. rewrite Hh1.
+      eexists. split; [reflexivity|]. cbn [h_pos h_cur h_ops]. split; [reflexivity|]. split; [exact Hafter|].
+      rewrite resets_elem. exact Ho1.
+  - (* void element *)
+    cbn [dom_of fst snd app] in *. cbn [hydrate st_of].
+    rewrite (goto_element_ok _ _ _ _ _ _ _ _ Hn Hc eq_refl).
+    eexists. split; [reflexivity|]. cbn [h_pos h_cur h_ops]. split; [reflexivity|]. split; [|reflexivity].
+    apply cursor_ok_after'; [now left|discriminate|cbn [length app]; lia].
+  - (* tuple *)
+    rewrite dom_of_tuple in *. rewrite hydrate_tuple, st_of_tuple.
+    rewrite wf_tuple in Hwf. apply andb_true_iff in Hwf as [_ Hks].
+    destruct (hyd_seq_spec root vs IH par n0 a0 pre post in_p (h_pos h) h Hks Hn eq_refl Hc)
+      as (h1 & Hh1 & Hp1 & Hc1 & Ho1).
+    rewrite Hh1. exists h1. rewrite resets_seq_eq. auto.
+  - (* Some *)
+    destruct (IH par n0 a0 pre post in_p (h_pos h) h Hwf Hn eq_refl Hc) as (h1 & Hh1 & Hp1 & Hc1 & Ho1).
+    cbn [hydrate st_of dom_of]. rewrite Hh1. exists h1. auto.
+  - (* None *)
+    cbn [dom_of fst snd app] in *. cbn [hydrate st_of].
+    rewrite (next_placeholder_ok _ _ _ _ _ _ _ _ Hn Hc eq_refl).
+    eexists. split; [reflexivity|]. cbn [h_pos h_cur h_ops]. split; [reflexivity|]. split; [|reflexivity].
+    apply cursor_ok_after'; [now left|discriminate|cbn [length app]; lia].
+  - (* Left *)
+    destruct (IH par n0 a0 pre post in_p (h_pos h) h Hwf Hn eq_refl Hc) as (h1 & Hh1 & Hp1 & Hc1 & Ho1).
+    cbn [hydrate st_of dom_of]. rewrite Hh1. exists h1. auto.
+  - (* Right *)
+    destruct (IH par n0 a0 pre post in_p (h_pos h) h Hwf Hn eq_refl Hc) as (h1 & Hh1 & Hp1 & Hc1 & Ho1).
+    cbn [hydrate st_of dom_of]. rewrite Hh1. exists h1. auto.
+  - (* Vec *)
+    rewrite dom_of_vec in *. cbn [fst snd] in *. rewrite hydrate_vec, st_of_vec.
+    rewrite wf_vec in Hwf.
+    assert (Hn1 : node_at root par = Some (DElem n0 a0 (pre ++ fst (dom_seq vs (h_pos h)) ++ sep :: post))).
+    { now rewrite <- app_assoc in Hn. }
+    destruct (hyd_seq_spec root vs IH par n0 a0 pre (sep :: post) in_p (h_pos h) h Hwf Hn1 eq_refl Hc)
+      as (h1 & Hh1 & Hp1 & Hc1 & Ho1).
+    rewrite Hh1.
+    assert (Hn2 : node_at root par = Some (DElem n0 a0 ((pre ++ fst (dom_seq vs (h_pos h))) ++ sep :: post))).
+    { now rewrite <- app_assoc. }
+    rewrite (next_placeholder_ok _ _ _ _ _ _ _ _ Hn2 Hc1 eq_refl). rewrite app_length.
+    eexists. split; [reflexivity|]. cbn [h_pos h_cur h_ops]. split; [reflexivity|]. split.
+    + apply cursor_ok_after'; [now left| |rewrite app_length; cbn [length app]; lia].
+      destruct (fst (dom_seq vs (h_pos h))); discriminate.
+    + rewrite resets_vec. exact Ho1.
+  - (* Any *)
+    destruct (IH par n0 a0 pre post in_p (h_pos h) h Hwf Hn eq_refl Hc) as (h1 & Hh1 & Hp1 & Hc1 & Ho1).
+    cbn [hydrate st_of dom_of]. rewrite Hh1. exists h1. auto.
+  - (* keyed *)
+    rewrite dom_of_keyed in *. cbn [fst snd] in *. rewrite hydrate_keyed, st_of_keyed. cbv zeta.
+    rewrite wf_keyed in Hwf.
+    assert (Hpar : (if pos_eqb (h_pos h) FirstChild then h_cur h else cur_parent (h_cur h)) = par
+                   /\ (negb (pos_eqb (h_pos h) FirstChild) && match h_cur h with [] => true | _ => false end) = false).
+    { destruct (h_pos h); cbn [cursor_ok pos_eqb] in Hc |- *; try contradiction;
+        destruct Hc as [_ ->]; split; reflexivity. }
+    destruct Hpar as [-> ->]. rewrite Hn. cbn [is_elem negb orb].
+    assert (Hn1 : node_at root par = Some (DElem n0 a0 (pre ++ fst (dom_seq vs (h_pos h)) ++ sep :: post))).
+    { now rewrite <- app_assoc in Hn. }
+    destruct (hyd_seq_spec root vs IH par n0 a0 pre (sep :: post) in_p (h_pos h) h Hwf Hn1 eq_refl Hc)
+      as (h1 & Hh1 & Hp1 & Hc1 & Ho1).
+    rewrite Hh1.
+    assert (Hn2 : node_at root par = Some (DElem n0 a0 ((pre ++ fst (dom_seq vs (h_pos h))) ++ sep :: post))).
+    { now rewrite <- app_assoc. }
+    rewrite (next_placeholder_ok _ _ _ _ _ _ _ _ Hn2 Hc1 eq_refl). rewrite app_length.
+    eexists. split; [reflexivity|]. cbn [h_pos h_cur h_ops]. split; [reflexivity|]. split.
+    + apply cursor_ok_after'; [now left| |rewrite app_length; cbn [length app]; lia].
+      destruct (fst (dom_seq vs (h_pos h))); discriminate.
+    + rewrite resets_keyed. exact Ho1.
+  - (* inert *)
+    cbn [wf] in Hwf. destruct e as [s|s|n a ks]; try discriminate.
+    cbn [dom_of fst snd app] in *. cbn [hydrate st_of].
+    rewrite (goto_element_ok _ _ _ _ _ _ _ _ Hn Hc eq_refl).
+    eexists. split; [reflexivity|]. cbn [h_pos h_cur h_ops]. split; [reflexivity|]. split; [|reflexivity].
+    apply cursor_ok_after'; [now left|discriminate|cbn [length app]; lia].
+Qed.
+
+(** ** hydrate_total *)
+Theorem hydrate_total v :
+  wf false v = true ->
+  exists st h, parse (render v) = Some (fst (dom_of v FirstChild)) /\
+               hydrate_from (root_of (fst (dom_of v FirstChild))) v = Some (st, h).
+Proof.
+  intro Hwf. set (f := fst (dom_of v FirstChild)).
+  destruct (hyd_all (root_of f) v [] s_div [] [] [] false FirstChild
+              {| h_cur := []; h_pos := FirstChild; h_ops := [] |} Hwf) as (h' & Hh & _).
+  - unfold node_at, root_of. cbn. now rewrite app_nil_r.
+  - reflexivity.
+  - split; reflexivity.
+  - exists (st_of v FirstChild [] 0), h'. split; [now apply print_parse_roundtrip|exact Hh].
+Qed.
